@@ -1745,7 +1745,11 @@ def unravel(__array: IntoArray, axis: int, shape: Tuple[int, int]) -> Array:
     '''
 
     assert len(shape) == 2 and all(isinstance(sh, int) for sh in shape), 'function.unravel: invalid shape: expected two integers, received {}'.format(shape)
-    transposed = _Transpose.to_end(Array.cast(__array), axis)
+    array = Array.cast(__array)
+    axis = numeric.normdim(array.ndim, axis)
+    if shape[0] * shape[1] != array.shape[axis]:
+        raise ValueError(f'cannot unravel an axis of length {array.shape[axis]} to shape {shape}')
+    transposed = _Transpose.to_end(array, axis)
     unraveled = _Wrapper(evaluable.Unravel,
                          transposed,
                          _WithoutPoints(Array.cast(shape[0])),
